@@ -1,4 +1,4 @@
 (* C12 — the lemmas live in ListZ.v (lists indexed by Z), DequeProofs.v (ring buffer ->
    plain list, capacity invariant) and QueueProofs.v (block queue -> FIFO list, schedules
    of the mutex-protected queue); this file gathers them for Properties.v. *)
-From FV Require Export C12.ListZ C12.DequeProofs C12.QueueProofs.
+From FV Require Export C12.ListZ C12.DequeProofs C12.QueueProofs C12.Concurrent.
